@@ -2,4 +2,4 @@
 # tools/runseeds.sh "dir id props..." …  — each argument is one seedtest job; jobs run one after the
 # other under a lock (several invocations queue up), logs in /tmp/seed-<id>.log
 exec 9>/tmp/seedlock; flock 9
-for j in "$@"; do set -- $j; id=$2; sh /verif/tools/seedtest.sh "$@" > /tmp/seed-$id.log 2>&1; done
+for j in "$@"; do set -- $j; id=$2; sh /verif/tools/seedtest.sh "$@" > /tmp/seed-$id.log 2>&1; python3 /verif/tools/seedmeta.py $id > /tmp/seedmeta-$id.log 2>&1; done
